@@ -119,6 +119,33 @@ def run(ctx: Ctx, rs: RuleSet, tier: str):
   rs.check(ok, rule, f'{apply.qualname}:memo-hit',
            f'a memo hit returns slot {result_slot} of the stored entry',
            ctx.loc(apply, apply.node))
+  # whether an entry is a hit is decided by identity alone: a guard that also
+  # compares the stored object with `==` hands the decision to user-defined
+  # equality (not reflexive for NaN-holding Buildables, arbitrary for user
+  # classes), and a shared node is then visited once per reference
+  bad_cmp = None
+  for m in g.nodes():
+    if g.kind[m] != 'if':
+      continue
+    t = g.stmt[m].test
+    mentions_memo = any(isinstance(x, ast.Attribute) and x.attr == 'memo'
+                        for x in ast.walk(t))
+    if not mentions_memo:
+      continue
+    for c in ast.walk(t):
+      if isinstance(c, ast.Compare) and any(
+          isinstance(o, (ast.Eq, ast.NotEq)) for o in c.ops):
+        bad_cmp = c
+      elif isinstance(c, ast.Call) and not (
+          isinstance(c.func, ast.Name) and c.func.id in ('id', 'len', 'type')):
+        bad_cmp = c
+  rs.check(bad_cmp is None, rule, f'{apply.qualname}:hit-by-identity',
+           'the memo lookup is decided by the id key alone (no value '
+           'equality, no call on the visited value)' if bad_cmp is None else
+           f'the memo lookup also evaluates `{unparse(bad_cmp)[:60]}`: a hit '
+           'then depends on user-defined equality / a call on the value, so a '
+           'node whose == is not reflexive (a NaN argument) is visited - and '
+           'built - once per reference', ctx.loc(apply, bad_cmp or apply.node))
   # every return of apply is a memo hit, a traversal_fn result, or the bypass
   rets = [n for n in g.nodes() if isinstance(g.stmt[n], ast.Return)]
   bypass = [n for n in rets if isinstance(g.stmt[n].value, ast.Call) and
